@@ -29,7 +29,7 @@ impl SwiftField for Field19 {
     where
         Self: Sized,
     {
-        if input.len() > 17 {
+        if super::swift_utils::amount_text_len(input) > 17 {
             return Err(crate::errors::ParseError::InvalidFormat {
                 message: format!(
                     "Field 19 must not exceed 17 characters, found {}",
